@@ -8,6 +8,13 @@ Two kinds of cases:
                 vi: / ? C-r C-s n N with counts), observed after every key, including the Document that
                 BufferControl.create_content displays (the incremental-search preview)
   kind "motion": oracle only — Vi `n` / `N` used as a motion (`v n`, `d n`: get_search_position end to end)
+  kind "find" : Document.find / find_backwards with in_current_line / include_current_position / count
+  kind "world": a real Application whose layout has several BufferControls (sharing a search field, with a
+                field of their own, not searchable), several SearchBufferControls and a non-buffer control,
+                driven by keys, focus changes and start_search() calls; every buffer, field, link and the
+                Document every control displays are observed after every step
+Keys of "keys" cases reach the model as PHYSICAL keys (`raw <key> <arg>`): which handler they run is looked
+up in the binding table that harness/gen_c16.py extracts from the real key bindings on every run.
 """
 from __future__ import annotations
 
@@ -28,55 +35,122 @@ from prompt_toolkit.search import SearchDirection, SearchState
 
 ID = "C16"
 DRIVER = "drv_c16"
-PROPS = ["Ptk.Props.C16Scan", "Ptk.Props.C16Search", "Ptk.Props.C16"]
-LEVEL_TEXT = ("Lean 4 theorems over an executable model of Document.find/find_backwards, Buffer._search (with the "
-              "wrap-around loops and count iteration as written), apply_search, document_for_search, "
-              "get_search_position and the incremental-search session (start / type / next / previous / accept / "
-              "abort, vi n/N): soundness, nearest-in-travel-order, completeness ahead, preview = accept, typing "
-              "never touches the searched buffer, for all histories, texts, cursors, needles, directions, case "
-              "settings, counts and key sequences; the model is tied to /repo on every run by a differential "
-              "correspondence (exhaustive small scope + random, API level and key-by-key through a real "
-              "PromptSession) and the property oracle")
+PROPS = ["Ptk.Props.C16Scan", "Ptk.Props.C16Search", "Ptk.Props.C16", "Ptk.Props.C16Keys", "Ptk.Props.C16World", "Ptk.Props.C16Dispatch", "Ptk.Props.C16Spec", "Ptk.Props.C16Fold", "Ptk.Props.C16Find"]
+LEVEL_TEXT = ("Lean 4 theorems over an executable model that follows, line by line, Document.find / find_backwards "
+              "(all parameters: in_current_line, include_current_position, count), Buffer._search (wrap-around loops, "
+              "count iteration), apply_search, document_for_search, get_search_position, SearchState.__invert__, "
+              "search.start_search / stop_search / do_incremental_search / accept_search, the search field as a buffer "
+              "of its own (typing, backspace, history recall via auto_up / auto_down, append_to_history, reset + reload), "
+              "Vi n N * # (word under the cursor), Emacs n / N on a read-only buffer (negative / zero arguments), "
+              "the BufferControl preview, layouts with several BufferControls / search fields / SearchStates "
+              "(search_links, current_search_state, not searchable controls), and the dispatch of physical keys through "
+              "a binding table regenerated from the real key bindings on every run. Proved for all histories, texts, "
+              "cursors, needles, directions, counts, comparisons (case-sensitive, ASCII folding, the interpreter's "
+              "re.IGNORECASE classes regenerated from the running Python) and key sequences: a declarative visit-order "
+              "SPEC with model = spec (refinement) from which soundness, nearest-first and completeness follow, the "
+              "exact set of occurrences the wrap-around can never reach, preview = accept (single control and over "
+              "a layout), typing / recalling never touches any buffer, abort restores exactly after field keys, accept "
+              "with no match, only the searched control's buffer ever moves, safety for every binding table; the model "
+              "is tied to /repo on every run by generated tables with kernel-decided side conditions, a differential "
+              "correspondence (exhaustive small scope + random; API level, key by key through a real PromptSession, and "
+              "through a real multi-control Application) and the property oracle")
 LEVEL_NOTE = ("trusted: Lean kernel, axioms propext/Classical.choice/Quot.sound only; the hand-written model "
               "(validated by the correspondence, not proved equal to the Python); `re` finditer on an escaped "
-              "literal = leftmost literal occurrence; re.IGNORECASE = ASCII case folding on ASCII inputs")
+              "literal = leftmost non-overlapping literal occurrences; the folding table is what `re` did on the BMP "
+              "when gen_c16.py ran it (characters without case: sampled); handler name -> model key map is hand-written, "
+              "(state, key) -> handler name is generated")
 RULE = ("exhaustive: every history of 1-3 short entries over a small alphabet (with newline, upper/lower case, regex "
-        "metacharacters) x every needle up to the tier's bound x every working index x every cursor x both "
-        "directions x include_current_position x counts 1..3 (API level), scripted key sessions over small "
-        "states; then seeded random larger histories/needles (needles biased to substrings that occur) and "
-        "random state-aware key sequences in emacs and vi mode; a case is non-trivial when the needle occurs "
-        "somewhere in the history (api) / when a search key is applied with a needle that occurs (keys)")
+        "metacharacters, accented / Turkish-i / sigma letters) x every needle up to the tier's bound x every working "
+        "index x every cursor x both directions x include_current_position x counts 1..3 (API level); Document.find / "
+        "find_backwards x in_current_line x include_current_position x counts 0..4 x all cursors; scripted key sessions "
+        "over small states (start, type, next, previous, accept, abort, field history, Vi n N * #, Emacs read-only n N "
+        "with signed arguments) and scripted multi-control sessions; then seeded random larger histories / needles "
+        "(needles biased to substrings that occur), random state-aware key sequences in emacs and vi mode and random "
+        "layouts (1-3 buffers, 2-4 controls, 1-2 search fields, focus changes, start_search API calls); a case is "
+        "non-trivial when the needle occurs somewhere (api, find) / when a search key is applied with a needle that "
+        "occurs (keys, world)")
 EXHAUSTIVE = True
 EXHAUSTIVE_SCOPE = {
     "quick": "api: 1 entry len<=4 over {a,b,\\n} x needles len<=2; 2 entries len<=2 / 3 entries len<=1 over {a,b} x "
-             "6 needles x counts 1..3; {a,A} len<=3 x case on/off; {a,.,*} len<=3 x metachar needles; all "
-             "widx/cursors/directions/include_current; keys: scripted sessions over 2-entry histories",
+             "6 needles x counts 1..3; {a,A} len<=3 x case on/off; {é,É,e} / {i,I,ı,İ} / {σ,ς,Σ,s,ſ} len<=2 x case on/off; "
+             "{a,.,*} len<=3 x metachar needles; all widx/cursors/directions/include_current; find: texts len<=4 over "
+             "{a,b,\\n} x 6 needles x counts 0..4 x in_current_line x include_current x all cursors; keys: scripted "
+             "sessions over 2-entry histories, * / # at every cursor of 2 histories; world: scripted 4-control layout",
     "thorough": "api: 1 entry len<=5 over {a,b,\\n} x needles len<=2 (+len 3 over {a,b}); 2 entries len<=3 / 3 entries "
-                "len<=2 over {a,b} x 6 needles x counts 1..3; {a,A} len<=4 x case on/off; {a,.,*} len<=4 x metachar "
-                "needles; all widx/cursors/directions/include_current; keys: scripted sessions over 2-3-entry histories",
+                "len<=2 over {a,b} x 6 needles x counts 1..3; {a,A} len<=4 x case on/off; non-ASCII case alphabets "
+                "len<=3; {a,.,*} len<=4 x metachar needles; find: texts len<=5; keys: scripted sessions over 2-3-entry "
+                "histories, * / # at every cursor of 4 histories with counts 1..3; world: scripted layouts incl. two "
+                "views of one buffer",
 }
 TRUSTED = ["harness/c16.py compares _search result, apply_search state, document_for_search, get_search_position, "
-           "find/find_backwards, and after every key: working lines, working_index, cursor, search field, "
-           "SearchState text/direction, is_searching and the displayed (preview) Document",
-           "Ptk/Model/C16.lean is a hand translation of the anchored search code (correspondence-checked)"]
-ASSUMPTIONS = ["CPython str semantics; re.finditer(re.escape(sub), t) yields the leftmost literal occurrence first",
-               "re.IGNORECASE equals ASCII case folding: generators use ASCII-only text and needle when ignore_case is on",
-               "count >= 1 (Buffer._search asserts it; key bindings pass event.arg)",
-               "key sessions: PromptSession defaults (reverse_vi_search_direction=True, preview_search=True), "
-               "search field cursor stays at its end (only typing / backspace in the field)"]
-PARTIAL_SCOPE = ["Document.find/find_backwards with in_current_line=True or count>1 (used by vi f/F/t/T, not by search) "
-                 "are not modelled",
-                 "non-ASCII case folding under ignore_case is not modelled",
-                 "backward search only sees occurrences that END at or before the cursor (an occurrence that starts "
-                 "before the cursor and extends past it is not 'between' old and new position); modelled as is",
-                 "wrap-around (DESIGN O2) revisits only entry 0 (forward) / the last entry (backward); modelled as is, "
-                 "theorems characterise it exactly but 'nearest' is claimed only for occurrences ahead",
+           "find/find_backwards (all parameters), and after every key: working lines, working_index, cursor, search "
+           "field text + working lines + index + history, SearchState text/direction, is_searching and the displayed "
+           "(preview) Document; in multi-control layouts additionally focus, every buffer, every search field with "
+           "its search link, and the Document every control displays",
+           "Ptk/Model/C16.lean, C16World.lean, C16Keys.lean are hand translations of the anchored code "
+           "(correspondence-checked); harness/gen_c16.py is trusted to print the binding table / folding classes it "
+           "obtains from the live objects faithfully"]
+ASSUMPTIONS = ["CPython str semantics; re.finditer(re.escape(sub), t) yields the leftmost literal occurrence first and "
+               "then non-overlapping ones",
+               "re.IGNORECASE on str = the folding classes gen_c16.py observed by running re on every BMP character that "
+               "has case (cached per interpreter + Unicode version); characters without case match only themselves "
+               "(200 sampled); characters outside the BMP are not generated under ignore_case",
+               "count >= 1 for Buffer._search (asserted there; key bindings pass event.arg, Emacs jump guards it)",
+               "key sessions: PromptSession defaults (reverse_vi_search_direction=True, preview_search=True), the "
+               "search field's cursor stays at its end (only typing / backspace / history recall in the field), no "
+               "newline is typed into the field, the focused search field is rendered (its history load completes) "
+               "after every key, keys outside the generated binding table's key set are not pressed",
+               "multi-control layouts: static search_buffer_control per control; in Vi mode the focus does not leave a "
+               "focused search field except through accept / abort; numeric arguments only where the key processor "
+               "accepts them (Vi navigation mode, Emacs outside the search field)"]
+PARTIAL_SCOPE = ["backward search only sees occurrences that END at or before the cursor, also for the preview / Enter "
+                 "after C-r (so Enter after C-r moves one occurrence further back); modelled as is, stated in the SPEC "
+                 "(visitBwd) and proved; 'nearest' is relative to that visit order",
+                 "wrap-around revisits only entry 0 (forward) / the last entry (backward): the never-visited region is "
+                 "characterised exactly (never_visited_fwd/bwd); those occurrences are not 'ahead', no violation",
+                 "abort (C-g / C-c) keeps what C-r / C-s already applied: it restores the original position only if "
+                 "nothing but field keys were pressed (abort_restores); the property does not speak about abort: "
+                 "recorded as an observation with a Lean witness replayed on the real editor",
                  "accepting with an EMPTY search field re-applies the previous needle while the preview shows the "
                  "unmoved document (needle empty: outside the property's quantifier); modelled as is",
-                 "selection kept/dropped by document_for_search, search-field history, multiple BufferControls sharing "
-                 "one search field, emacs read-only n/N bindings, vi * and # are not modelled",
-                 "Vi `n`/`N` as a motion after an operator / in visual mode: get_search_position is modelled and proved, "
-                 "the selection / deletion around it is exercised by the oracle only (single-line entries for `d`)"]
+                 "ignore-case with the 103 BMP characters whose lower / upper case is not a single character (ß, İ, ŉ, …): "
+                 "model and correspondence cover them, the independent oracle abstains; non-BMP characters under "
+                 "ignore_case: not modelled",
+                 "selection kept/dropped by document_for_search, Vi `n`/`N` as a motion after an operator / in visual "
+                 "mode (get_search_position is modelled and proved, the selection / deletion around it is exercised by "
+                 "the oracle only), the key processor's numeric-argument and escape-prefix handling, enable_history_search "
+                 "in the search field, a callable search_buffer_control that changes over time, mouse handling: not modelled",
+                 "Vi f F t T ; , themselves (only Document.find / find_backwards, which they call, are modelled)"]
+MODELLED = {
+    "src/prompt_toolkit/document.py": [
+        "Document.find", "Document.find_backwards", "Document.find_boundaries_of_current_word",
+        "Document.get_word_under_cursor", "Document.text_before_cursor", "Document.text_after_cursor",
+        "Document.current_line_before_cursor", "Document.current_line_after_cursor",
+        "Document.is_cursor_at_the_end_of_line"],
+    "src/prompt_toolkit/buffer.py": [
+        "Buffer._search", "Buffer._search.search_once", "Buffer.apply_search", "Buffer.document_for_search",
+        "Buffer.get_search_position", "Buffer.append_to_history", "Buffer.history_backward", "Buffer.history_forward",
+        "Buffer.auto_up", "Buffer.auto_down", "Buffer.working_index", "Buffer.cursor_position",
+        "Buffer.load_history_if_not_yet_loaded", "Buffer.load_history_if_not_yet_loaded.load_history"],
+    "src/prompt_toolkit/search.py": [
+        "SearchState.__init__", "SearchState.__invert__", "start_search", "stop_search", "do_incremental_search",
+        "accept_search", "_get_reverse_search_links"],
+    "src/prompt_toolkit/key_binding/bindings/search.py": [
+        "abort_search", "accept_search", "start_reverse_incremental_search", "start_forward_incremental_search",
+        "reverse_incremental_search", "forward_incremental_search"],
+    "src/prompt_toolkit/key_binding/bindings/vi.py": [
+        "search_buffer_is_empty", "load_vi_bindings._prev_occurrence", "load_vi_bindings._next_occurrence",
+        "load_vi_bindings._search_next2", "load_vi_bindings._search_previous2", "load_vi_search_bindings"],
+    "src/prompt_toolkit/key_binding/bindings/emacs.py": [
+        "load_emacs_search_bindings", "load_emacs_search_bindings.jump", "load_emacs_search_bindings._jump_next",
+        "load_emacs_search_bindings._jump_prev"],
+    "src/prompt_toolkit/layout/controls.py": [
+        "BufferControl.search_buffer_control", "BufferControl.search_state", "BufferControl.create_content"],
+    "src/prompt_toolkit/layout/layout.py": ["Layout.is_searching", "Layout.search_target_buffer_control"],
+    "src/prompt_toolkit/application/application.py": ["Application.current_search_state"],
+    "src/prompt_toolkit/filters/app.py": ["is_searching", "control_is_searchable"],
+    "src/prompt_toolkit/key_binding/key_processor.py": ["KeyProcessor._fix_vi_cursor_position"],
+}
 TECHNIQUE = "lean-proof+correspondence"
 ANCHORS = ["src/prompt_toolkit/buffer.py", "src/prompt_toolkit/document.py", "src/prompt_toolkit/search.py",
            "src/prompt_toolkit/key_binding/bindings/search.py", "src/prompt_toolkit/layout/controls.py"]
@@ -98,12 +172,43 @@ def mk_state(sub, d, ic) -> SearchState:
                        ignore_case=bool(ic))
 
 
+_CASESET = {}
+
+
+def _caseset(c):
+    """c together with its single-character lower / upper case forms (and theirs)"""
+    r = _CASESET.get(c)
+    if r is None:
+        r = {c}
+        for f in (c.lower(), c.upper()):
+            if len(f) == 1:
+                r.add(f)
+                for g in (f.lower(), f.upper()):
+                    if len(g) == 1:
+                        r.add(g)
+        _CASESET[c] = r
+    return r
+
+
+def ceq(a, b):
+    """the same letter ignoring case, stated with str.lower / str.upper only (no regular expressions):
+    the two characters share a lower / upper case form"""
+    return a == b or bool(_caseset(a) & _caseset(b))
+
+
+def ambiguous(c):
+    """characters whose lower or upper case form is not a single character (ß, İ, ŉ, ǰ, ΐ, …): what
+    "the same letter ignoring case" means for them is not defined by str.lower / str.upper alone;
+    the oracle does not judge ignore-case searches that involve them (the correspondence does)"""
+    return len(c.lower()) != 1 or len(c.upper()) != 1
+
+
 def occs(t: str, sub: str, ic) -> list[int]:
     """all start positions of `sub` in `t` (independent of the code under test)"""
     n = len(sub)
-    if ic:
-        t, sub = t.lower(), sub.lower()
-    return [p for p in range(len(t) - n + 1) if t[p:p + n] == sub]
+    if not ic:
+        return [p for p in range(len(t) - n + 1) if t[p:p + n] == sub]
+    return [p for p in range(len(t) - n + 1) if all(ceq(sub[i], t[p + i]) for i in range(n))]
 
 
 # ------------------------------------------------------------------ queries of an api case
@@ -168,40 +273,80 @@ def impl_lines_api(case):
 
 
 # ------------------------------------------------------------------ key sessions on the real editor
+import gen_c16
+
+# op -> the physical key (name of gen_c16.NAMED or "ch:<code point>") that is pressed for it; WHICH handler
+# that key runs in the current state is decided by the real bindings on one side and by the binding
+# table generated from them (Ptk.Gen.C16.bindTable) on the model side
 EMACS_KEYS = {
-    ("start", B): ["\x12"], ("start", F): ["\x13"],
-    ("incr", B): ["\x12", "\x1b[A"], ("incr", F): ["\x13", "\x1b[B"],
-    ("accept", None): ["\r", "\x1b"], ("abort", None): ["\x07", "\x03"], ("bs", None): ["\x7f"],
+    ("start", B): ["c-r"], ("start", F): ["c-s"],
+    ("incr", B): ["c-r", "up"], ("incr", F): ["c-s", "down"],
+    ("accept", None): ["enter", "escape"], ("abort", None): ["c-g", "c-c"], ("bs", None): ["backspace"],
 }
 VI_KEYS = {
-    ("start", B): ["/", "\x12"], ("start", F): ["?", "\x13"],
-    ("incr", B): ["\x12"], ("incr", F): ["\x13"],
-    ("accept", None): ["\r", "\x1b"], ("abort", None): ["\x07", "\x03"], ("bs", None): ["\x7f"],
+    ("start", B): ["ch:47", "c-r"], ("start", F): ["ch:63", "c-s"],       # `/` `?` (directions reversed)
+    ("incr", B): ["c-r"], ("incr", F): ["c-s"],
+    ("accept", None): ["enter", "escape"], ("abort", None): ["c-g", "c-c"], ("bs", None): ["backspace"],
 }
 
 
-def raw_key(vi, op):
+def arg_prefix(vi, k):
+    """the keys that give a handler the numeric argument k (Vi navigation mode: digits;
+    Emacs: Esc-digits, Esc-minus for a negative one)"""
+    k = int(k)
+    if vi:
+        assert k >= 1
+        return "" if k == 1 else str(k)
+    if k == 1:
+        return ""
+    if k == -1:
+        return "\x1b-"
+    return "\x1b" + ("-" + str(-k) if k < 0 else str(k))
+
+
+def op_key(vi, op):
+    """(key name, numeric argument) pressed for an op"""
     name = op[0]
     var = op[2] if len(op) > 2 else 0
     if name == "type":
-        return op[1]
+        return "ch:%d" % ord(op[1]), 1
+    if name == "hup":
+        return ("up" if vi else "c-p"), 1       # Buffer.auto_up in the search field
+    if name == "hdown":
+        return ("down" if vi else "c-n"), 1
+    if name in ("star", "hash"):
+        assert vi
+        return ("ch:42" if name == "star" else "ch:35"), int(op[1])
+    if name in ("jn", "jp"):
+        assert not vi
+        return ("ch:110" if name == "jn" else "ch:78"), int(op[1])
     if name in ("next", "prev"):
         assert vi
-        k = int(op[1])
-        ch = "n" if name == "next" else "N"
-        return ch if (k == 1 and not var) else str(k) + ch
+        return ("ch:110" if name == "next" else "ch:78"), int(op[1])
     table = VI_KEYS if vi else EMACS_KEYS
     alts = table[(name, op[1] if name in ("start", "incr") else None)]
-    return alts[var % len(alts)]
+    if name == "start" and not vi and var >= 2:
+        # Emacs, read-only buffer: `/` and `?` start a search like in Vi (directions reversed by
+        # PromptSession's reverse_vi_search_direction=True)
+        return ("ch:47" if op[1] == B else "ch:63"), 1
+    return alts[var % len(alts)], 1
+
+
+def raw_key(vi, op):
+    name, arg = op_key(vi, op)
+    return arg_prefix(vi, arg) + (gen_c16.NAMED[name] if name in gen_c16.NAMED else chr(int(name[3:])))
 
 
 class Session:
     """a real PromptSession whose main buffer is put into a given (working lines, index, cursor) state"""
 
-    def __init__(self, ed, vi, lines, widx, cur):
+    def __init__(self, ed, vi, lines, widx, cur, fhist=()):
         self.ed, self.vi = ed, vi
         b = ed.buffer
         self.b = b
+        self.sb = ed.session.search_buffer
+        for x in fhist:                       # the search field's own history (oldest first)
+            self.sb.history.append_string(x)
 
         async def load():
             b.load_history_if_not_yet_loaded()
@@ -241,15 +386,34 @@ class Session:
             "field": self.ed.session.search_buffer.text, "stext": ss.text,
             "sdir": F if ss.direction == SearchDirection.FORWARD else B,
             "searching": bool(self.ed.app.layout.is_searching), "shown": self.displayed(),
+            "fl": list(self.sb._working_lines), "fi": self.sb.working_index,
+            "fh": list(self.sb.history.get_strings()),
         }
+
+    def render_field(self):
+        """what the renderer does after every key: a focused search field is visible, its
+        BufferControl.create_content loads the field's history (async task, run to completion)"""
+        lay = self.ed.app.layout
+        if not lay.is_searching:
+            return
+        sc = lay.current_control
+
+        async def go():
+            sc.create_content(80, 1)
+            for _ in range(6):
+                await asyncio.sleep(0)
+
+        self.ed._loop.run_until_complete(go())
 
     def feed(self, op):
         self.ed.feed(raw_key(self.vi, op))
+        self.render_field()
 
 
 def obs_line(o) -> str:
     return (f"{enc_list(o['lines'], enc_str)} {o['widx']} {o['cur']} | {enc_str(o['field'])} {enc_str(o['stext'])} "
-            f"{o['sdir']} {int(o['searching'])} | {enc_str(o['shown'][0])} {o['shown'][1]}")
+            f"{o['sdir']} {int(o['searching'])} | {enc_str(o['shown'][0])} {o['shown'][1]} | "
+            f"{enc_list(o['fl'], enc_str)} {o['fi']} {enc_list(o['fh'], enc_str)}")
 
 
 _LAST = [None, None]
@@ -270,8 +434,9 @@ def run_session(case):
 def _run_session(case):
     from editor import editor
     out = []
-    with editor(text="", vi=bool(case["vi"]), search_ignore_case=bool(case["ic"])) as ed:
-        s = Session(ed, bool(case["vi"]), case["lines"], case["widx"], case["cur"])
+    with editor(text="", vi=bool(case["vi"]), search_ignore_case=bool(case["ic"]),
+                read_only=bool(case.get("ro", 0))) as ed:
+        s = Session(ed, bool(case["vi"]), case["lines"], case["widx"], case["cur"], case.get("fhist", ()))
         out.append(s.obs())
         for op in case["ops"]:
             s.feed(op)
@@ -285,14 +450,17 @@ def key_line(op):
     name = op[0]
     if name == "type":
         return f"key type {enc_str(op[1])}"
-    if name in ("start", "incr", "next", "prev"):
+    if name in ("start", "incr", "next", "prev", "star", "hash", "jn", "jp"):
         return f"key {name} {op[1]}"
     return f"key {name}"
 
 
 def model_lines_keys(case):
-    out = [f"init {case['vi']} {case['ic']} {enc_list(case['lines'], enc_str)} {case['widx']} {case['cur']}"]
-    out += [key_line(op) for op in case["ops"]]
+    out = [f"initx {case['vi']} {case['ic']} {int(case.get('ro', 0))} {enc_list(case['lines'], enc_str)} "
+           f"{case['widx']} {case['cur']} {enc_list(case.get('fhist', []), enc_str)}"]
+    for op in case["ops"]:
+        name, arg = op_key(case["vi"], op)
+        out.append(f"raw {name} {arg}")
     return out
 
 
@@ -317,13 +485,411 @@ def run_motion(case):
     return o0, o1
 
 
+
+
+# ------------------------------------------------------------------ Document.find / find_backwards in full
+def find_queries_x(case):
+    """[(cursor, in_current_line, include_current_position, count)]"""
+    t = case["text"]
+    return [(c, inl, incl, k) for c in range(len(t) + 1) for inl in (0, 1) for incl in (0, 1)
+            for k in case["counts"]]
+
+
+def model_lines_find(case):
+    t, sub, ic = enc_str(case["text"]), enc_str(case["sub"]), case["ic"]
+    out = []
+    for (c, inl, incl, k) in find_queries_x(case):
+        out.append(f"findx {t} {c} {sub} {inl} {incl} {ic} {k}")
+        if incl:
+            out.append(f"findbx {t} {c} {sub} {inl} {ic} {k}")
+    return out
+
+
+def impl_lines_find(case):
+    out = []
+    for (c, inl, incl, k) in find_queries_x(case):
+        doc = Document(case["text"], c)
+        out.append(core.enc_opt_int(doc.find(case["sub"], in_current_line=bool(inl),
+                                             include_current_position=bool(incl),
+                                             ignore_case=bool(case["ic"]), count=k)))
+        if incl:
+            out.append(core.enc_opt_int(doc.find_backwards(case["sub"], in_current_line=bool(inl),
+                                                           ignore_case=bool(case["ic"]), count=k)))
+    return out
+
+
+def oracle_find(case):
+    """the count-th occurrence, counting occurrences that do not overlap an earlier counted one, inside
+    the region (rest of the text / of the line; text / line before the cursor), nearest first"""
+    v = []
+    t, sub, ic = case["text"], case["sub"], case["ic"]
+    n = len(sub)
+    oc = occs(t, sub, ic)
+    for (c, inl, incl, k) in find_queries_x(case):
+        doc = Document(t, c)
+        a = t.rfind("\n", 0, c) + 1 if inl else 0
+        e = t.find("\n", c) if inl else -1
+        e = len(t) if e < 0 else e
+        # forward
+        r = doc.find(sub, in_current_line=bool(inl), include_current_position=bool(incl),
+                     ignore_case=bool(ic), count=k)
+        exp = None
+        if k >= 1 and (incl or c < e):
+            pos, got = (c if incl else c + 1), []
+            while len(got) < k:
+                nxt = [p for p in oc if p >= pos and p + n <= e]
+                if not nxt:
+                    break
+                got.append(nxt[0])
+                pos = nxt[0] + max(n, 1)
+            if len(got) == k:
+                exp = got[-1] - c
+        if r != exp:
+            v.append({"signature": "Document.find | not the count-th occurrence after the cursor",
+                      "msg": f"Document({t!r},{c}).find({sub!r}, in_current_line={inl}, include_current_position={incl}, "
+                             f"ignore_case={ic}, count={k}) = {r}, expected {exp}"})
+        if not incl:
+            continue
+        r = doc.find_backwards(sub, in_current_line=bool(inl), ignore_case=bool(ic), count=k)
+        exp = None
+        if k >= 1:
+            lim, got = c, []
+            while len(got) < k:
+                prv = [p for p in oc if p >= a and p + n <= lim]
+                if not prv:
+                    break
+                got.append(prv[-1])
+                lim = prv[-1] if n else prv[-1] - 1
+            if len(got) == k:
+                exp = got[-1] - c
+        if r != exp:
+            v.append({"signature": "Document.find_backwards | not the count-th occurrence before the cursor",
+                      "msg": f"Document({t!r},{c}).find_backwards({sub!r}, in_current_line={inl}, ignore_case={ic}, "
+                             f"count={k}) = {r}, expected {exp}"})
+    return v
+
+
+def find_cases(tier, rng):
+    q = tier == "quick"
+    for t in strings("ab\n", 4 if q else 5):
+        for sub in ["a", "b", "ab", "aa", "\n", ""]:
+            yield {"kind": "find", "text": t, "sub": sub, "ic": 0, "counts": [0, 1, 2, 3, 4]}
+    for t in strings("aA", 4):
+        for sub in ["a", "aA", "AA"]:
+            yield {"kind": "find", "text": t, "sub": sub, "ic": 1, "counts": [1, 2, 3]}
+    for _ in range(150 if q else 3000):
+        ic = rng.random() < 0.3
+        alpha = (ASCII_ALPHA if rng.random() < 0.5 else UNI_ALPHA) if ic else RAND_ALPHA
+        t = rand_text(rng, alpha, rng.choice([3, 6, 10, 16]))
+        sub = rand_needle(rng, [t], alpha, 2)
+        yield {"kind": "find", "text": t, "sub": sub, "ic": int(ic), "counts": [1, 2, rng.choice([3, 4, 7])]}
+
+
+# ------------------------------------------------------------------ several controls / search fields
+class RealWorld:
+    """an Application whose layout has several BufferControls (some sharing a search field, some with
+    a field of their own, some not searchable), several SearchBufferControls and one focusable
+    control that is not a BufferControl; default key bindings (`load_key_bindings()`)"""
+
+    def __init__(self, case):
+        from prompt_toolkit.application import Application
+        from prompt_toolkit.enums import EditingMode
+        from prompt_toolkit.input import DummyInput
+        from prompt_toolkit.output import DummyOutput
+        from prompt_toolkit.key_binding.defaults import load_key_bindings
+        from prompt_toolkit.layout import Layout, HSplit, Window
+        from prompt_toolkit.layout.controls import SearchBufferControl, FormattedTextControl
+
+        self.vi = bool(case["vi"])
+        self.bufs = []
+        for i, (lines, w, c) in enumerate(case["bufs"]):
+            b = Buffer(name=f"b{i}")
+            b._working_lines = deque(lines)
+            b._Buffer__working_index = w
+            b._Buffer__cursor_position = c
+            self.bufs.append(b)
+        self.sbufs, self.fields = [], []
+        for k, (ic, hist) in enumerate(case["fields"]):
+            sb = Buffer(name=f"s{k}")
+            for x in hist:
+                sb.history.append_string(x)
+            self.sbufs.append(sb)
+            self.fields.append(SearchBufferControl(buffer=sb, ignore_case=bool(ic)))
+        self.ctrls = [BufferControl(self.bufs[b], search_buffer_control=(self.fields[f] if f >= 0 else None),
+                                    preview_search=True) for (b, f) in case["ctrls"]]
+        self.other = FormattedTextControl("not a buffer", focusable=True)
+        root = HSplit([Window(c) for c in self.ctrls] + [Window(self.other)] + [Window(f) for f in self.fields])
+        self.app = Application(layout=Layout(root, focused_element=self.target(case["focus"])),
+                               key_bindings=load_key_bindings(),
+                               editing_mode=EditingMode.VI if self.vi else EditingMode.EMACS,
+                               reverse_vi_search_direction=True,     # like PromptSession: `/` backward, `?` forward
+                               input=DummyInput(), output=DummyOutput())
+        self.app.timeoutlen = None
+        self.app.ttimeoutlen = None
+
+    def target(self, f):
+        return self.other if f[0] == "o" else (self.ctrls[f[1]] if f[0] == "c" else self.fields[f[1]])
+
+
+class WorldRun:
+    def __init__(self, case):
+        self.case = case
+        self.loop = asyncio.new_event_loop()
+        asyncio.set_event_loop(self.loop)
+
+        async def mk():
+            return RealWorld(case)
+
+        self.w = self.loop.run_until_complete(mk())
+        self.w.app._is_running = True
+
+    def close(self):
+        try:
+            pending = asyncio.all_tasks(self.loop)
+            for t in pending:
+                t.cancel()
+            if pending:
+                self.loop.run_until_complete(asyncio.gather(*pending, return_exceptions=True))
+        except Exception:
+            pass
+        self.loop.close()
+        asyncio.set_event_loop(None)
+
+    def run(self, fn):
+        async def go():
+            r = fn()
+            for _ in range(6):
+                await asyncio.sleep(0)
+            return r
+        return self.loop.run_until_complete(go())
+
+    def feed(self, keys):
+        from editor import parse_keys
+        kp = self.w.app.key_processor
+
+        def go():
+            for k in parse_keys(keys):
+                kp.feed(k)
+                kp.process_keys()
+        self.run(go)
+
+    def shown(self, ctl):
+        got = {}
+        orig = ctl._create_get_processed_line_func
+
+        def spy(document, width, height):
+            got["d"] = (document.text, document.cursor_position)
+            return orig(document, width, height)
+
+        ctl._create_get_processed_line_func = spy
+        try:
+            self.run(lambda: ctl.create_content(80, 10))
+        finally:
+            ctl._create_get_processed_line_func = orig
+        return got["d"]
+
+    def obs(self):
+        w = self.w
+        lay = w.app.layout
+        cur = lay.current_control
+        if lay.is_searching:           # a focused search field is rendered: its history gets loaded
+            self.run(lambda: cur.create_content(80, 1))
+        if cur is w.other:
+            foc = "o"
+        elif cur in w.ctrls:
+            foc = f"c{w.ctrls.index(cur)}"
+        else:
+            foc = f"f{w.fields.index(cur)}"
+        fields = []
+        for f, sb in zip(w.fields, w.sbufs):
+            ss = f.searcher_search_state
+            tgt = lay.search_links.get(f)
+            fields.append({"text": sb.text, "stext": ss.text,
+                           "sdir": F if ss.direction == SearchDirection.FORWARD else B,
+                           "link": None if tgt is None else w.ctrls.index(tgt),
+                           "fl": list(sb._working_lines), "fi": sb.working_index,
+                           "fh": list(sb.history.get_strings())})
+        return {"focus": foc, "searching": bool(lay.is_searching),
+                "bufs": [(list(b._working_lines), b.working_index, b.cursor_position) for b in w.bufs],
+                "fields": fields, "shown": [self.shown(c) for c in w.ctrls]}
+
+    def apply(self, op):
+        from prompt_toolkit import search as S
+        w = self.w
+        if op[0] == "focus":
+            self.run(lambda: w.app.layout.focus(w.target(op[1:])))
+        elif op[0] == "startfor":
+            d = SearchDirection.FORWARD if op[2] == F else SearchDirection.BACKWARD
+            self.run(lambda: S.start_search(w.ctrls[op[1]], direction=d))
+        else:
+            self.feed(raw_key(w.vi, op))
+
+
+def _run_world(case):
+    from prompt_toolkit.application.current import set_app
+    from prompt_toolkit.key_binding.vi_state import InputMode
+    wr = WorldRun(case)
+    out = []
+    try:
+        with set_app(wr.w.app):
+            if wr.w.vi:
+                # navigation mode; a key press on every control applies the Vi cursor fix to its buffer
+                wr.w.app.vi_state.input_mode = InputMode.NAVIGATION
+                start = wr.w.app.layout.current_control
+                for c in wr.w.ctrls:
+                    wr.run(lambda c=c: wr.w.app.layout.focus(c))
+                    wr.feed("\x1b")
+                wr.run(lambda: wr.w.app.layout.focus(start))
+            out.append(wr.obs())
+            for op in case["ops"]:
+                wr.apply(op)
+                out.append(wr.obs())
+    finally:
+        wr.close()
+    return out
+
+
+def run_world(case):
+    import json
+    key = json.dumps(case, sort_keys=True)
+    if _LAST[0] == key:
+        return _LAST[1]
+    out = _run_world(case)
+    _LAST[0], _LAST[1] = key, out
+    return out
+
+
+def world_obs_line(o) -> str:
+    bs = " ; ".join(f"{enc_list(l, enc_str)} {w} {c}" for (l, w, c) in o["bufs"])
+    fs = " ; ".join(f"{enc_str(f['text'])} {enc_str(f['stext'])} {f['sdir']} "
+                    f"{'-' if f['link'] is None else f['link']} {enc_list(f['fl'], enc_str)} {f['fi']} "
+                    f"{enc_list(f['fh'], enc_str)}" for f in o["fields"])
+    ps = " ; ".join(f"{enc_str(t)} {c}" for (t, c) in o["shown"])
+    return f"{o['focus']} {int(o['searching'])} | {bs} | {fs} | {ps}"
+
+
+def model_lines_world(case):
+    bs = " ".join(f"{enc_list(l, enc_str)} {w} {c}" for (l, w, c) in case["bufs"])
+    cs = " ".join(f"{b} {f}" for (b, f) in case["ctrls"])
+    fs = " ".join(f"{ic} {enc_list(h, enc_str)}" for (ic, h) in case["fields"])
+    foc = " ".join(str(x) for x in case["focus"])
+    out = [f"winit {case['vi']} {len(case['bufs'])} {bs} {len(case['ctrls'])} {cs} {len(case['fields'])} {fs} {foc}"]
+    for op in case["ops"]:
+        if op[0] == "focus":
+            out.append("wkey focus " + " ".join(str(x) for x in op[1:]))
+        elif op[0] == "startfor":
+            out.append(f"wkey startfor {op[1]} {op[2]}")
+        else:
+            out.append("wkey " + key_line(op))
+    return out
+
+
+def impl_lines_world(case):
+    return [world_obs_line(o) for o in run_world(case)]
+
+
+def oracle_world(case):
+    """C16 over several controls: a search key only ever moves the buffer of the control being
+    searched; typing in a search field moves nothing; only the searched control shows a preview and
+    it shows where Enter then goes; accept / next land on a real, nearest occurrence"""
+    v = []
+    vi = case["vi"]
+    obs = run_world(case)
+    for i, op in enumerate(case["ops"]):
+        o0, o1 = obs[i], obs[i + 1]
+        name = op[0]
+        tag = f"world {'vi' if vi else 'emacs'} {name}"
+
+        def bad(cond, msg):
+            v.append({"signature": f"{tag} | {cond}", "msg": f"{msg}: step {i} {op} of {case}: before={o0} after={o1}"})
+
+        # which control / buffer / field is being searched before the key
+        tgt = fld = None
+        if o0["focus"][0] == "f":
+            fld = int(o0["focus"][1:])
+            tgt = o0["fields"][fld]["link"]
+        elif o0["focus"][0] == "c":
+            tgt = int(o0["focus"][1:])
+            fld = case["ctrls"][tgt][1] if case["ctrls"][tgt][1] >= 0 else None
+        tb = None if tgt is None else case["ctrls"][tgt][0]
+        for j, (b0, b1) in enumerate(zip(o0["bufs"], o1["bufs"])):
+            if b0[0] != b1[0] and not (name == "type" and not o0["searching"] and j == tb):
+                bad("text changed", f"buffer {j}: a search key changed text")
+            if j != tb and b0 != b1:
+                bad("moved a buffer that is not searched", f"buffer {j} changed although control {tgt} is searched")
+        if name in ("focus", "startfor"):
+            if [b for b in o0["bufs"]] != [b for b in o1["bufs"]]:
+                bad("focus / start moved a cursor", "focus / start_search changed a buffer")
+            continue
+        if tb is None:
+            if o0["bufs"] != o1["bufs"] or o0["focus"] != o1["focus"]:
+                bad("key without a buffer control changed something", "no BufferControl has the focus")
+            continue
+        b0, b1 = o0["bufs"][tb], o1["bufs"][tb]
+        leaves = vi and o0["searching"] and not o1["searching"]
+        same = b0 if not leaves else (b0[0], b0[1], vifix(b0[0], b0[1], b0[2]))
+        if name in ("type", "bs", "hup", "hdown") and o0["searching"] and tuple(same) != tuple(b1):
+            bad("typing moved the real cursor", "typing in the search field changed the searched buffer")
+        if name in ("start", "abort") and tuple(same) != tuple(b1):
+            bad("start/abort moved the cursor", "start/abort changed the searched buffer")
+        if name == "start" and fld is None and (o1["searching"] or o1["focus"] != o0["focus"]):
+            bad("search started from a control that is not searchable", "start must do nothing here")
+        # previews: only the searched control, and only while its field is non-empty
+        for j, sh in enumerate(o1["shown"]):
+            bj = o1["bufs"][case["ctrls"][j][0]]
+            real = (bj[0][bj[1]], bj[2])
+            is_target = o1["searching"] and o1["fields"][int(o1["focus"][1:])]["link"] == j
+            if not is_target and sh != real:
+                bad("preview in a control that is not searched", f"control {j} shows {sh}, real document {real}")
+        if fld is not None and name == "accept" and o0["searching"]:
+            f0 = o0["fields"][fld]
+            ic = case["fields"][fld][0]
+            if f0["text"]:
+                exp = o0["shown"][tgt] if not vi else (o0["shown"][tgt][0], vifix_text(*o0["shown"][tgt]))
+                if exp != (b1[0][b1[1]], b1[2]):
+                    bad("preview differs from accept", "displayed preview != position after accepting")
+                v.extend(check_move(tag, b0[0], b0[1], b0[2], f0["text"], ic, f0["sdir"], 1, 1, b1[1], b1[2],
+                                    vi_fix=bool(vi)))
+            if o1["searching"] or o1["focus"] != f"c{tgt}":
+                bad("still searching", "accept did not return to the searched control")
+        if fld is not None and name == "incr" and o0["searching"]:
+            f0 = o0["fields"][fld]
+            ic = case["fields"][fld][0]
+            if f0["sdir"] == op[1]:
+                v.extend(check_move(tag, b0[0], b0[1], b0[2], f0["text"], ic, op[1], 0, 1, b1[1], b1[2]))
+            elif tuple(b0) != tuple(b1):
+                bad("direction change moved", "changing direction must not move")
+        if name in ("next", "prev") and not o0["searching"] and vi:
+            if fld is not None:
+                f0 = o0["fields"][fld]
+                ic, needle, d0 = case["fields"][fld][0], f0["stext"], f0["sdir"]
+            else:
+                ic, needle, d0 = 0, "", F          # Application.current_search_state: a dummy SearchState()
+            d = d0 if name == "next" else (B if d0 == F else F)
+            v.extend(check_move(tag, b0[0], b0[1], b0[2], needle, ic, d, 0, int(op[1]), b1[1], b1[2], vi_fix=True))
+        if name in ("star", "hash") and not o0["searching"] and vi:
+            ic = case["fields"][fld][0] if fld is not None else 0
+            word = word_under(b0[0][b0[1]], b0[2])
+            v.extend(check_move(tag, b0[0], b0[1], b0[2], word, ic, F if name == "star" else B, 0, int(op[1]),
+                                b1[1], b1[2], vi_fix=True))
+    return v
+
+
 def model_lines(case):
+    if case["kind"] == "find":
+        return model_lines_find(case)
+    if case["kind"] == "world":
+        return model_lines_world(case)
     if case["kind"] == "motion":
         return []          # oracle only: selection / deletion are outside the model
     return model_lines_api(case) if case["kind"] == "api" else model_lines_keys(case)
 
 
 def impl_lines(case):
+    if case["kind"] == "find":
+        return impl_lines_find(case)
+    if case["kind"] == "world":
+        return impl_lines_world(case)
     if case["kind"] == "motion":
         return []
     return impl_lines_api(case) if case["kind"] == "api" else impl_lines_keys(case)
@@ -359,6 +925,35 @@ def vifix_text(t, c):
 
 def vifix(lines, w, c):
     return vifix_text(lines[w], c)
+
+
+_WS = __import__("re").compile(r"\s")
+
+
+def _kind(ch):
+    if ch.isascii() and (ch.isalnum() or ch == "_"):
+        return "w"
+    return "s" if _WS.match(ch) else "p"
+
+
+def word_under(t, c):
+    """the word under the cursor, restated without regular expressions: the maximal run of
+    same-kind (word / punctuation) characters around the cursor within the line; the part before the
+    cursor only counts when it is of the same kind as the character under the cursor"""
+    a = t.rfind("\n", 0, c) + 1
+    e = t.find("\n", c)
+    e = len(t) if e < 0 else e
+    hi = c
+    if c < e and _kind(t[c]) != "s":
+        while hi < e and _kind(t[hi]) == _kind(t[c]):
+            hi += 1
+    lo = c
+    if c > a and _kind(t[c - 1]) != "s":
+        while lo > a and _kind(t[lo - 1]) == _kind(t[c - 1]):
+            lo -= 1
+    if lo < c and hi > c and _kind(t[c - 1]) != _kind(t[c]):
+        lo = c
+    return t[lo:hi]
 
 
 def check_move(site, lines, w, c, sub, ic, d, incl, count, nw, nc, vi_fix=False):
@@ -484,8 +1079,26 @@ def oracle_keys(case):
             bad("text changed", "a search key changed the text of the buffer / history")
         leaves = vi and o0["searching"] and not o1["searching"]   # back to Vi navigation mode: cursor fix
         same = main0 if not leaves else (o0["lines"], o0["widx"], vifix(o0["lines"], o0["widx"], o0["cur"]))
-        if name in ("type", "bs") and o0["searching"] and same != main1:
+        if name in ("type", "bs", "hup", "hdown") and o0["searching"] and same != main1:
             bad("typing moved the real cursor", "typing in the search field changed the searched buffer")
+        if name in ("star", "hash") and vi and not o0["searching"]:
+            word = word_under(o0["lines"][o0["widx"]], o0["cur"])
+            d = F if name == "star" else B
+            if (o1["stext"], o1["sdir"]) != (word, d):
+                bad("word under cursor not searched", f"search state should be ({word!r}, {d})")
+            v.extend(check_move(tag, o0["lines"], o0["widx"], o0["cur"], word, ic, d, 0, int(op[1]),
+                                o1["widx"], o1["cur"], vi_fix=True))
+        if name in ("jn", "jp") and not vi and not o0["searching"] and case.get("ro"):
+            k = int(op[1])
+            d = o0["sdir"] if name == "jn" else (B if o0["sdir"] == F else F)
+            if k < 0:
+                d, k = (B if d == F else F), -k
+            if k == 0:
+                if main0 != main1:
+                    bad("zero count moved", "a zero repeat count must not search")
+            else:
+                v.extend(check_move(tag, o0["lines"], o0["widx"], o0["cur"], o0["stext"], ic, d, 0, k,
+                                    o1["widx"], o1["cur"]))
         if name in ("start", "abort") and same != main1:
             bad("start/abort moved the cursor", "start/abort changed the searched buffer")
         if name == "accept" and o0["searching"]:
@@ -553,8 +1166,26 @@ def oracle_motion(case):
     return v
 
 
+def case_strings(case):
+    if case["kind"] == "find":
+        return [case["text"], case["sub"]]
+    if case["kind"] == "world":
+        out = [t for (ls, _w, _c) in case["bufs"] for t in ls] + [h for (_ic, hs) in case["fields"] for h in hs]
+    else:
+        out = list(case["lines"]) + [case.get("sub", "")] + list(case.get("fhist", []))
+    out += [op[1] for op in case.get("ops", []) if op[0] == "type"]
+    return out
+
+
 def oracle(case):
-    if case["kind"] == "motion":
+    ic_on = any(ic for (ic, _h) in case["fields"]) if case["kind"] == "world" else case.get("ic")
+    if ic_on and any(ambiguous(ch) for t in case_strings(case) for ch in t):
+        return []          # see `ambiguous`: correspondence only
+    if case["kind"] == "world":
+        v = oracle_world(case)
+    elif case["kind"] == "find":
+        v = oracle_find(case)
+    elif case["kind"] == "motion":
         v = oracle_motion(case)
     else:
         v = oracle_api(case) if case["kind"] == "api" else oracle_keys(case)
@@ -604,6 +1235,14 @@ def exhaustive_api(tier):
             for ic in (0, 1):
                 yield api_case([t], sub, ic, finds=True)
                 yield api_case(["Aa", t], sub, ic)
+    # E3b: case beyond ASCII (é / É / e; the four i's; sigma forms), on and off
+    for alpha, needles in (("éÉe", ["é", "É", "e", "éÉ", "Ée"]),
+                           ("iI\u0131\u0130", ["i", "I", "\u0131", "\u0130", "i\u0131"]),
+                           ("\u03c3\u03c2\u03a3s\u017f", ["\u03c3", "\u03a3", "s", "\u017f", "\u03c2s"])):
+        for t in strings(alpha, 2 if q else 3):
+            for sub in needles:
+                for ic in (0, 1):
+                    yield api_case([t], sub, ic, finds=True)
     # E4: regex metacharacters are literal
     for t in strings("a.*", 3 if q else 4):
         for sub in [".", "*", ".*", "a.", "a*", ".a", "**"]:
@@ -616,6 +1255,11 @@ def exhaustive_api(tier):
 
 RAND_ALPHA = ["a", "a", "b", "b", "A", "B", "\n", ".", "*", "(", "[", "\\", "$", "^", "+", "?", " ", "é", "世", "ß"]
 ASCII_ALPHA = ["a", "a", "b", "b", "A", "B", "\n", ".", "*", "(", "[", "\\", "$", " ", "k", "K", "s", "S"]
+# ignore-case beyond ASCII: accented pairs, ß / ẞ, the Turkish i's, Kelvin sign, long s, the sigmas,
+# micro / mu, a titlecase digraph, Cyrillic, a character without case
+UNI_ALPHA = ["a", "A", "é", "É", "é", "ß", "\u1e9e", "i", "I", "\u0131", "\u0130", "k", "K", "\u212a", "s", "S",
+             "\u017f", "\u03c3", "\u03c2", "\u03a3", "\u00b5", "\u03bc", "\u039c", "\u01c5", "\u01c6", "\u01c4",
+             "\u044f", "\u042f", "\n", ".", "世"]
 
 
 def rand_text(rng, alpha, maxlen):
@@ -634,10 +1278,10 @@ def rand_needle(rng, lines, alpha, maxlen=3):
 
 
 def random_api(tier, rng):
-    n = 1500 if tier == "quick" else 40000
+    n = 1500 if tier == "quick" else 25000
     for _ in range(n):
         ic = rng.random() < 0.4
-        alpha = ASCII_ALPHA if ic else RAND_ALPHA
+        alpha = (ASCII_ALPHA if rng.random() < 0.5 else UNI_ALPHA) if ic else RAND_ALPHA
         nl = rng.choice([1, 1, 2, 3, 4, 5])
         lines = [rand_text(rng, alpha, rng.choice([0, 2, 4, 8, 12])) for _ in range(nl)]
         sub = rand_needle(rng, lines, alpha)
@@ -653,9 +1297,81 @@ def random_api(tier, rng):
         yield case
 
 
-def keys_case(vi, ic, lines, widx, cur, ops):
-    return {"kind": "keys", "vi": int(vi), "ic": int(ic), "lines": list(lines), "widx": widx, "cur": cur,
-            "ops": [list(o) for o in ops]}
+def keys_case(vi, ic, lines, widx, cur, ops, ro=0, fhist=()):
+    c = {"kind": "keys", "vi": int(vi), "ic": int(ic), "lines": list(lines), "widx": widx, "cur": cur,
+         "ops": [list(o) for o in ops]}
+    if ro:
+        c["ro"] = 1
+    if fhist:
+        c["fhist"] = list(fhist)
+    return c
+
+
+def scripted_keys2(tier):
+    """round 2: Vi `*` / `#`, the search field's history, Emacs n / N on a read-only buffer,
+    abort after several incremental steps, accept when nothing matches"""
+    q = tier == "quick"
+    # Vi * and # at every cursor: words, punctuation runs, blanks, line ends
+    hists = [["foo", "x foo.bar foo"], ["a+b ++", "++ a\n+ a"]]
+    if not q:
+        hists += [["foo_1 foo", "foo\nfoo_1  foo"], ["ab", "", "ab ab"]]
+    for lines in hists:
+        for w in range(len(lines)):
+            for c in range(len(lines[w]) + 1):
+                for k in ((1,) if q else (1, 2, 3)):
+                    yield keys_case(1, 0, lines, w, c, [["star", k], ["next", 1], ["prev", 1]])
+                    yield keys_case(1, 0, lines, w, c, [["hash", k], ["next", 1], ["star", 1]])
+    # the search field's history: recall, edit, accept, duplicates, abort
+    lines = ["ab", "xab ab"]
+    for vi in (0, 1):
+        for fh in ([], ["a"], ["b", "ab"]):
+            for d in (B, F):
+                up, dn = ["hup"], ["hdown"]
+                seqs = [
+                    [["start", d], up, ["accept", None, 0], ["start", d], up, up, ["accept", None, 0]],
+                    [["start", d], up, up, up, dn, ["type", "b"], up, dn, dn, dn, ["accept", None, 0],
+                     ["start", d], up, ["abort", None, 0], ["start", d], up, ["accept", None, 1]],
+                    [["start", d], ["type", "a"], up, dn, ["accept", None, 0], ["start", d], ["type", "a"],
+                     ["accept", None, 0], ["start", d], up, up, ["bs"], dn, ["type", "b"], up,
+                     ["accept", None, 0]],
+                    [["start", d], ["type", "z"], ["accept", None, 0], ["start", d], up, ["incr", d, 0],
+                     ["abort", None, 1]],
+                ]
+                for ops in seqs:
+                    yield keys_case(vi, 0, lines, 1, 3, ops, fhist=fh)
+    # Emacs, read-only buffer: / ? C-r C-s start; n / N with positive, negative and zero arguments
+    hists = [["ab", "xab ab"], ["a", "ba\nab", "b"]]
+    for lines in hists:
+        for w in range(len(lines)):
+            for c in range(len(lines[w]) + 1):
+                for d in (B, F):
+                    for var in (0, 2):
+                        for args in ((1, -1, 0), (2, -2, 1)) if q else ((1, -1, 0), (2, -2, 1), (3, -3, 2)):
+                            yield keys_case(0, 0, lines, w, c,
+                                            [["start", d, var], ["type", "a"], ["accept", None, 0]]
+                                            + [["jn", a] for a in args] + [["jp", a] for a in args]
+                                            + [["type", "b"]], ro=1)
+    # `~search_state` keeps ignore_case: previous-match keys on mixed-case text (Vi N, Emacs N / negative n)
+    lines = ["Ab", "xaB ab AB"]
+    for w in range(len(lines)):
+        for c in range(len(lines[w]) + 1):
+            for d in (B, F):
+                yield keys_case(1, 1, lines, w, c, [["start", d], ["type", "a"], ["type", "b"], ["accept", None, 0],
+                                                    ["prev", 1], ["next", 1], ["prev", 2]])
+                yield keys_case(0, 1, lines, w, c, [["start", d], ["type", "a"], ["type", "B"], ["accept", None, 0],
+                                                    ["jp", 1], ["jn", -1], ["jn", 1], ["jp", -2]], ro=1)
+    # abort after several incremental steps across history entries; accept when nothing matches
+    for lines in [["ab", "b", "xab ab"], ["ab", "ab"]]:
+        w = len(lines) - 1
+        for c in (0, len(lines[w])):
+            for vi in (0, 1):
+                for d in (B, F):
+                    for k in (1, 2, 3):
+                        yield keys_case(vi, 0, lines, w, c, [["start", d], ["type", "a"], ["type", "b"]]
+                                        + [["incr", d, 0]] * k + [["abort", None, 0]])
+                    yield keys_case(vi, 0, lines, w, c, [["start", d], ["type", "q"], ["accept", None, 0],
+                                                         ["start", d], ["type", "q"], ["incr", d, 0],
+                                                         ["accept", None, 1]])
 
 
 def scripted_keys(tier):
@@ -671,7 +1387,9 @@ def scripted_keys(tier):
                     ty = [["type", ch] for ch in sub]
                     for d in (B, F):
                         o = F if d == B else B
-                        for var in (0, 1):
+                        # (quick tier: the alternative physical keys -- Up / Down, Escape, C-c, `/` `?` -- only on
+                        #  the first history; the random sessions press them everywhere)
+                        for var in ((0, 1) if (not q or lines is hists[0]) else (0,)):
                             # emacs: start, type, (next)*, accept / abort ; direction change ; empty accept
                             for k in range(3):
                                 yield keys_case(0, 0, lines, w, c,
@@ -697,51 +1415,236 @@ KEY_ALPHA = ["a", "a", "b", "A", ".", "*", " ", "n", "/"]
 
 
 def random_keys(tier, rng):
-    n = 700 if tier == "quick" else 16000
+    n = 700 if tier == "quick" else 10000
     for _ in range(n):
         vi = rng.random() < 0.5
         ic = rng.random() < 0.4
-        alpha = ["a", "a", "b", "A", "B", "\n", ".", "*", " ", "n"] + ([] if ic else ["é"])
+        alpha = ["a", "a", "b", "A", "B", "\n", ".", "*", " ", "n", "é"] + (["É"] if ic else [])
         nl = rng.choice([1, 2, 2, 3, 4])
         lines = [rand_text(rng, alpha, rng.choice([0, 2, 4, 8])) for _ in range(nl)]
         w = rng.randrange(nl)
         c = rng.choice([0, len(lines[w]), rng.randrange(len(lines[w]) + 1)])
+        ro = (not vi) and rng.random() < 0.3
+        fhist = [rand_text(rng, ["a", "b", "A", ".", " "], 3) or "a" for _ in range(rng.choice([0, 0, 1, 2, 3]))]
         ops = []
-        searching, flen = False, 0
+        # the generator tracks the search field (working lines, index, history) so that it knows
+        # when Vi's backspace-in-an-empty-field leaves the search
+        searching = False
+        fl, fi, fh, loaded = [""], 0, list(fhist), False
+
+        def stop():
+            nonlocal searching, fl, fi, loaded
+            searching, fl, fi, loaded = False, [""], 0, False
+
         for _ in range(rng.randrange(2, 14)):
             if not searching:
                 r = rng.random()
-                if vi and r < 0.45:
+                if vi and r < 0.3:
                     ops.append([rng.choice(["next", "prev"]), rng.choice([1, 1, 1, 2, 3]), rng.randrange(2)])
-                elif not vi and r < 0.25:
+                elif vi and r < 0.5:
+                    ops.append([rng.choice(["star", "hash"]), rng.choice([1, 1, 1, 2, 3])])
+                elif ro and r < 0.45:
+                    ops.append([rng.choice(["jn", "jp"]), rng.choice([1, 1, 2, 3, -1, -2, 0])])
+                elif ro and r < 0.55:
+                    ops.append(["type", rng.choice(["a", "b", "."])])     # refused: read-only
+                elif not vi and not ro and r < 0.25:
                     ops.append(["type", rng.choice(KEY_ALPHA)])
                 else:
-                    ops.append(["start", rng.choice([F, B]), rng.randrange(2)])
-                    searching, flen = True, 0
+                    ops.append(["start", rng.choice([F, B]), rng.randrange(4 if ro else 2)])
+                    searching = True
+                    if not loaded:
+                        fl, fi, loaded = fh + fl, fi + len(fh), True
             else:
                 r = rng.random()
-                if r < 0.4:
+                if r < 0.12:
+                    op = rng.choice(["hup", "hup", "hdown"])
+                    ops.append([op])
+                    if op == "hup" and fi > 0:
+                        fi -= 1
+                    elif op == "hdown" and fi < len(fl) - 1:
+                        fi += 1
+                elif r < 0.4:
                     # bias towards characters of the history so that needles occur
                     pool = [ch for t in lines for ch in t if ch != "\n"] or KEY_ALPHA
                     ch = rng.choice(pool if rng.random() < 0.7 else KEY_ALPHA)
-                    if ic and not ch.isascii():
-                        ch = "a"
+                    if ch not in gen_c16.CHARS:
+                        ch = "é"          # (only keys of the generated binding table are pressed)
                     ops.append(["type", ch])
-                    flen += 1
+                    fl[fi] += ch
                 elif r < 0.5:
                     ops.append(["bs"])
-                    if flen == 0 and vi:
-                        searching = False
-                    flen = max(0, flen - 1)
+                    if fl[fi] == "" and vi:
+                        stop()
+                    else:
+                        fl[fi] = fl[fi][:-1]
                 elif r < 0.75:
                     ops.append(["incr", rng.choice([F, B]), rng.randrange(2)])
                 elif r < 0.92:
                     ops.append(["accept", None, rng.randrange(2)])
-                    searching, flen = False, 0
+                    if fl[fi] and (not fh or fh[-1] != fl[fi]):
+                        fh.append(fl[fi])
+                    stop()
                 else:
                     ops.append(["abort", None, rng.randrange(2)])
-                    searching, flen = False, 0
-        yield keys_case(vi, ic, lines, w, c, ops)
+                    stop()
+        yield keys_case(vi, ic, lines, w, c, ops, ro=ro, fhist=fhist)
+
+
+
+# ------------------------------------------------------------------ world generators
+def world_case(vi, bufs, ctrls, fields, focus, ops):
+    return {"kind": "world", "vi": int(vi), "bufs": [[list(l), w, c] for (l, w, c) in bufs],
+            "ctrls": [list(x) for x in ctrls], "fields": [[int(ic), list(h)] for (ic, h) in fields],
+            "focus": list(focus), "ops": [list(o) for o in ops]}
+
+
+# controls 0 and 1 share search field 0, control 2 has field 1 (ignore-case) of its own, control 3 is
+# a second, NOT searchable view of buffer 0
+T_CTRLS = [(0, 0), (1, 0), (2, 1), (0, -1)]
+
+
+def scripted_world(tier):
+    q = tier == "quick"
+    bufs = [(["ab", "ab xab"], 1, 0), (["xx ab ab"], 0, 0), (["aB", "AB ab"], 1, 5)]
+    fields = [(0, ["b"]), (1, [])]
+    for vi in (0, 1):
+        for d in (F, B):
+            o = F if d == B else B
+            for c0 in range(3):          # (control 3 is not searchable: visited by focus ops below)
+                c1 = (c0 + 1) % 3
+                foc = ["c", c0]
+                ty = [["type", "a"], ["type", "b"]]
+                yield world_case(vi, bufs, T_CTRLS, fields, foc,
+                                 [["start", d]] + ty + [["incr", d, 0], ["accept", None, 0], ["focus", "c", c1],
+                                                        ["start", d], ["accept", None, 1], ["focus", "c", 3],
+                                                        ["start", o], ["focus", "o"], ["start", d]])
+                yield world_case(vi, bufs, T_CTRLS, fields, foc,
+                                 [["startfor", c1, d]] + ty + [["incr", d, 1], ["incr", o, 0], ["abort", None, 0],
+                                                               ["startfor", 3, d], ["startfor", 2, o], ["hup"],
+                                                               ["type", "b"], ["accept", None, 0]])
+                if vi:
+                    yield world_case(1, bufs, T_CTRLS, fields, foc,
+                                     [["start", d]] + ty + [["accept", None, 0], ["next", 1], ["focus", "c", c1],
+                                                            ["next", 1], ["prev", 2], ["star", 1], ["focus", "c", 3],
+                                                            ["next", 1], ["hash", 1], ["focus", "c", 0], ["next", 1]])
+                else:
+                    # leaving a focused search field by a click: the link stays behind (harmless)
+                    yield world_case(0, bufs, T_CTRLS, fields, foc,
+                                     [["start", d]] + ty + [["focus", "c", c1], ["type", "x"], ["start", o],
+                                                            ["type", "b"], ["accept", None, 0], ["focus", "o"],
+                                                            ["type", "z"], ["startfor", 0, d], ["hup"], ["hup"],
+                                                            ["abort", None, 1]])
+    if not q:
+        # two views of the same buffer with different search fields
+        bufs2 = [(["ab", "xab ab"], 1, 3)]
+        for vi in (0, 1):
+            for d in (F, B):
+                yield world_case(vi, bufs2, [(0, 0), (0, 1), (0, -1)], [(0, []), (1, ["AB"])], ["c", 0],
+                                 [["start", d], ["type", "a"], ["accept", None, 0], ["focus", "c", 1], ["start", d],
+                                  ["type", "B"], ["incr", d, 0], ["accept", None, 0], ["focus", "c", 2], ["start", d]])
+
+
+def random_world(tier, rng):
+    n = 150 if tier == "quick" else 3000
+    for _ in range(n):
+        vi = rng.random() < 0.5
+        alpha = ["a", "a", "b", "A", "B", "\n", ".", " "]
+        nb = rng.choice([1, 2, 3])
+        bufs = []
+        for _b in range(nb):
+            nl = rng.choice([1, 1, 2, 3])
+            lines = [rand_text(rng, alpha, rng.choice([0, 2, 4, 8])) for _ in range(nl)]
+            w = rng.randrange(nl)
+            bufs.append((lines, w, rng.randrange(len(lines[w]) + 1)))
+        nf = rng.choice([1, 2])
+        fields = [(int(rng.random() < 0.4), [rand_text(rng, ["a", "b", "A"], 2) or "a"
+                                              for _ in range(rng.choice([0, 0, 1, 2]))]) for _ in range(nf)]
+        nc = rng.choice([2, 3, 4])
+        ctrls = [(min(i, nb - 1) if i < nb else rng.randrange(nb), rng.choice([-1] + list(range(nf)) * 2))
+                 for i in range(nc)]
+        focus = ["c", rng.randrange(nc)]
+        # generator-side tracking of focus and of every search field's buffer
+        st = {"foc": tuple(focus)}
+        fz = [{"fl": [""], "fi": 0, "fh": list(h), "loaded": False, "link": None} for (_ic, h) in fields]
+
+        def start_from(i):
+            k = ctrls[i][1]
+            if k < 0:
+                return
+            z = fz[k]
+            z["link"] = i
+            st["foc"] = ("f", k)
+            if not z["loaded"]:
+                z["fl"], z["fi"], z["loaded"] = z["fh"] + z["fl"], z["fi"] + len(z["fh"]), True
+
+        def stop(k):
+            z = fz[k]
+            st["foc"] = ("c", z["link"])
+            z.update({"fl": [""], "fi": 0, "loaded": False, "link": None})
+
+        ops = []
+        for _ in range(rng.randrange(3, 16)):
+            foc = st["foc"]
+            r = rng.random()
+            if foc[0] == "f":
+                k = foc[1]
+                z = fz[k]
+                if not vi and r < 0.08:
+                    tgt = rng.choice([["c", rng.randrange(nc)], ["o"]])
+                    ops.append(["focus"] + tgt)
+                    st["foc"] = tuple(tgt)
+                elif r < 0.16:
+                    op = rng.choice(["hup", "hdown"])
+                    ops.append([op])
+                    if op == "hup" and z["fi"] > 0:
+                        z["fi"] -= 1
+                    elif op == "hdown" and z["fi"] < len(z["fl"]) - 1:
+                        z["fi"] += 1
+                elif r < 0.45:
+                    pool = [ch for (ls, _w, _c) in bufs for t in ls for ch in t if ch != "\n"] or ["a"]
+                    ch = rng.choice(pool if rng.random() < 0.8 else ["a", "b", "."])
+                    ops.append(["type", ch])
+                    z["fl"][z["fi"]] += ch
+                elif r < 0.52:
+                    ops.append(["bs"])
+                    if z["fl"][z["fi"]] == "" and vi:
+                        stop(k)
+                    else:
+                        z["fl"][z["fi"]] = z["fl"][z["fi"]][:-1]
+                elif r < 0.75:
+                    ops.append(["incr", rng.choice([F, B]), rng.randrange(2)])
+                elif r < 0.92:
+                    ops.append(["accept", None, rng.randrange(2)])
+                    t = z["fl"][z["fi"]]
+                    if t and (not z["fh"] or z["fh"][-1] != t):
+                        z["fh"].append(t)
+                    stop(k)
+                else:
+                    ops.append(["abort", None, rng.randrange(2)])
+                    stop(k)
+            else:
+                if r < 0.2:
+                    tgt = rng.choice([["c", rng.randrange(nc)], ["c", rng.randrange(nc)], ["o"]])
+                    ops.append(["focus"] + tgt)
+                    st["foc"] = tuple(tgt)
+                elif r < 0.3:
+                    i = rng.randrange(nc)
+                    ops.append(["startfor", i, rng.choice([F, B])])
+                    start_from(i)
+                elif foc[0] == "o":
+                    ops.append(["start", rng.choice([F, B]), 1 if vi else rng.randrange(2)])
+                elif vi and r < 0.5:
+                    ops.append([rng.choice(["next", "prev"]), rng.choice([1, 1, 2, 3]), 0])
+                elif vi and r < 0.6:
+                    ops.append([rng.choice(["star", "hash"]), rng.choice([1, 1, 2])])
+                elif not vi and r < 0.4:
+                    ops.append(["type", rng.choice(["a", "b", "x"])])
+                else:
+                    # (Vi: C-r / C-s only — `/` `?` on a control that is not searchable are other commands)
+                    searchable = ctrls[foc[1]][1] >= 0
+                    ops.append(["start", rng.choice([F, B]), (rng.randrange(2) if searchable or not vi else 1)])
+                    start_from(foc[1])
+        yield world_case(vi, bufs, ctrls, fields, focus, ops)
 
 
 def motion_cases(tier, rng):
@@ -758,7 +1661,7 @@ def motion_cases(tier, rng):
                             for key in ("n", "N"):
                                 yield {"kind": "motion", "ic": 0, "lines": lines, "widx": w, "cur": c, "sub": sub,
                                        "dir": d, "op": op, "key": key, "count": 1}
-    n = 150 if tier == "quick" else 2000
+    n = 100 if tier == "quick" else 2000
     for _ in range(n):
         ic = rng.random() < 0.3
         alpha = ["a", "a", "b", "A", "\n", " ", "."]
@@ -776,10 +1679,14 @@ def motion_cases(tier, rng):
 
 def cases(tier, rng):
     yield from exhaustive_api(tier)
+    yield from find_cases(tier, rng)
     yield from scripted_keys(tier)
+    yield from scripted_keys2(tier)
+    yield from scripted_world(tier)
     yield from motion_cases(tier, rng)
     yield from random_api(tier, rng)
     yield from random_keys(tier, rng)
+    yield from random_world(tier, rng)
 
 
 # ------------------------------------------------------------------ evidence helpers
@@ -788,18 +1695,32 @@ def sample_view(case):
 
 
 def nontrivial(case):
+    if case["kind"] == "find":
+        return bool(case["sub"]) and bool(occs(case["text"], case["sub"], case["ic"]))
+    if case["kind"] == "world":
+        return any(op[0] in ("incr", "accept", "next", "prev", "star", "hash") for op in case["ops"]) and \
+            any(op[0] in ("type", "star", "hash", "hup") for op in case["ops"])
     if case["kind"] == "motion":
         return any(occs(t, case["sub"], case["ic"]) for t in case["lines"])
     if case["kind"] == "api":
         return bool(case["sub"]) and any(occs(t, case["sub"], case["ic"]) for t in case["lines"])
-    return any(op[0] in ("incr", "accept", "next", "prev") for op in case["ops"]) and \
-        any(op[0] == "type" for op in case["ops"])
+    return any(op[0] in ("incr", "accept", "next", "prev", "star", "hash", "jn", "jp") for op in case["ops"]) and \
+        any(op[0] in ("type", "star", "hash", "hup") for op in case["ops"])
 
 
 def distribution(cases_):
     d = {"kind": {}, "entries": {}, "needle_len": {}, "ignore_case": {}, "mode": {}, "ops": {}, "api_queries": 0}
     for c in cases_:
         d["kind"][c["kind"]] = d["kind"].get(c["kind"], 0) + 1
+        if c["kind"] == "find":
+            d["find_queries"] = d.get("find_queries", 0) + len(find_queries_x(c))
+            continue
+        if c["kind"] == "world":
+            m = "world-vi" if c["vi"] else "world-emacs"
+            d["mode"][m] = d["mode"].get(m, 0) + 1
+            for op in c["ops"]:
+                d["ops"]["w:" + op[0]] = d["ops"].get("w:" + op[0], 0) + 1
+            continue
         k = str(len(c["lines"]))
         d["entries"][k] = d["entries"].get(k, 0) + 1
         d["ignore_case"][str(c["ic"])] = d["ignore_case"].get(str(c["ic"]), 0) + 1
